@@ -325,8 +325,9 @@ func c04SlotStrings(r *prng.Rand, def *refcodec.Msg, si int, fn func(p *refcodec
 
 func init() {
 	p := &core.Property{
-		ID:   "C04",
-		Rule: "decoder: for every message × every slot × declared length in {0,1,min−1,min,min+1,mid,max−1,max,max+1,type-max} × context {alone, among all others, duplicated before/after a legal copy, last in reversed order}, the string and all its prefixes go through the real decoder (direct Decode<Msg> and PlainNasDecode) and the table-driven reference decoder; accept/reject and every slot's presence, identifier octet, Len and value must agree. encoder: well-formed plans (9 presence patterns) are built as message values and the emitted bytes compared with the reference encoder. structure: live struct layout and identifier constants against the table. Non-trivial = string has at least one optional element or a length-bearing mandatory element; distinct by message and bytes.",
+		ID:         "C04",
+		Interleave: []string{"decode", "encode"},
+		Rule:       "decoder: for every message × every slot × declared length in {0,1,min−1,min,min+1,mid,max−1,max,max+1,type-max} × context {alone, among all others, duplicated before/after a legal copy, last in reversed order}, the string and all its prefixes go through the real decoder (direct Decode<Msg> and PlainNasDecode) and the table-driven reference decoder; accept/reject and every slot's presence, identifier octet, Len and value must agree. encoder: well-formed plans (9 presence patterns) are built as message values and the emitted bytes compared with the reference encoder. structure: live struct layout and identifier constants against the table. Non-trivial = string has at least one optional element or a length-bearing mandatory element; distinct by message and bytes.",
 		Assumptions: []string{
 			"spec/messages.json: TS 24.501 Rel-15 section 8.2/8.3 tables, frozen at authoring time from the pinned tree and reviewed as far as possible without the document; it does not follow later changes of /repo",
 			"domain = strings built from known identifiers; strings in which the reference decoder meets an unknown identifier octet (or a 0x0X type-1 look-alike) are counted and skipped here (C01/C03 still judge them)",
